@@ -42,11 +42,11 @@ func ResponseWriterImpls(p *Prog) []*types.Named {
 			have := map[string]bool{}
 			ms := types.NewMethodSet(types.NewPointer(named))
 			for i := 0; i < ms.Len(); i++ {
-				have[ms.At(i).Obj().Name()] = true
+				have[objName(ms.At(i).Obj())] = true
 			}
 			declared := 0
 			for i := 0; i < named.NumMethods(); i++ {
-				switch named.Method(i).Name() {
+				switch objName(named.Method(i)) {
 				case "Write", "WriteHeader", "Header":
 					declared++
 				}
@@ -63,7 +63,7 @@ func ResponseWriterImpls(p *Prog) []*types.Named {
 func (p *Prog) MethodOf(named *types.Named, name string) *ssa.Function {
 	for i := 0; i < named.NumMethods(); i++ {
 		m := named.Method(i)
-		if m.Name() == name {
+		if objName(m) == name {
 			return p.SSA.FuncValue(m)
 		}
 	}
@@ -91,7 +91,7 @@ func rulePublishedMaps(c *Ctx, p *Prog, rule string) {
 			}
 			rs := Roots(op.Val)
 			alloc, ok := rs[0].(*ssa.Alloc)
-			if len(rs) != 1 || !ok || alloc.Parent() != fn {
+			if len(rs) != 1 || !ok || !(alloc.Parent() == fn || inSplicedBody(fn, alloc)) {
 				// forwarding a response received elsewhere (server side relays what it parsed): not a fresh publication
 				continue
 			}
@@ -183,14 +183,14 @@ func shimChannels(c *Ctx, p *Prog, rule string) []*shimChan {
 		if _, ok := f.Type().Underlying().(*types.Chan); !ok {
 			continue
 		}
-		sc := &shimChan{Field: f.Name()}
-		if v, ok := LiteralField(as[0], f.Name()); ok {
+		sc := &shimChan{Field: objName(f)}
+		if v, ok := LiteralField(as[0], objName(f)); ok {
 			if rs := Roots(v); len(rs) == 1 {
 				sc.Mk, _ = rs[0].(*ssa.MakeChan)
 			}
 		}
 		if sc.Mk == nil {
-			c.Unk(rule, "Connection."+f.Name()+":creation", p, as[0].Pos(), "channel field is not initialised from a make(chan) in NewConnection")
+			c.Unk(rule, "Connection."+objName(f)+":creation", p, as[0].Pos(), "channel field is not initialised from a make(chan) in NewConnection")
 		}
 		for _, fn := range fns {
 			for _, op := range ChanOpsOf(fn) {
@@ -199,7 +199,7 @@ func shimChannels(c *Ctx, p *Prog, rule string) []*shimChan {
 						sc.Ops = append(sc.Ops, op)
 						break
 					}
-					if base, fld, ok := FieldLoad(r); ok && fld == f.Name() && NamedTypeRel(base.Type()) == "agent/websockets.Connection" {
+					if base, fld, ok := FieldLoad(r); ok && fld == objName(f) && NamedTypeRel(base.Type()) == "agent/websockets.Connection" {
 						sc.Ops = append(sc.Ops, op)
 						break
 					}
@@ -213,6 +213,14 @@ func shimChannels(c *Ctx, p *Prog, rule string) []*shimChan {
 
 // goBodyOnce: fn is the body of a go statement that occurs exactly once, outside any loop.
 func goBodyOnce(fn *ssa.Function) bool {
+	if info := helperOf(fn); info != nil {
+		// a new helper started as `go helper(args)`: the named form of a goroutine closure
+		if len(info.sites) != 1 {
+			return false
+		}
+		g, isGo := info.sites[0].(*ssa.Go)
+		return isGo && !InLoop(g.Block())
+	}
 	par := fn.Parent()
 	if par == nil {
 		return false
@@ -880,9 +888,8 @@ func ruleAppResponseCacheKey(c *Ctx, p *Prog, rule string) {
 		in   ssa.Instruction
 	}{{"lookup", rd}, {"store", wr}} {
 		okg := false
-		for _, g := range GuardingIfs(site.in) {
-			cond, trueSucc := BoolTest(g.If)
-			if bo, ok := cond.(*ssa.BinOp); ok && bo.Op == token.EQL && g.Succ == trueSucc {
+		for _, g := range GuardConds(site.in) {
+			if bo, ok := g.Cond.(*ssa.BinOp); ok && bo.Op == token.EQL && g.Truth {
 				s1, c1 := ConstString(bo.X)
 				s2, c2 := ConstString(bo.Y)
 				if (c1 && s1 == "GET") || (c2 && s2 == "GET") {
@@ -998,4 +1005,149 @@ func (p *Prog) MethodsOf(named *types.Named) []*ssa.Function {
 		}
 	}
 	return out
+}
+
+// inSplicedBody: instruction i belongs to a new helper whose body is visited
+// as part of fn (called synchronously from fn, transitively).
+func inSplicedBody(fn *ssa.Function, i ssa.Instruction) bool {
+	found := false
+	EachInstr(fn, func(x ssa.Instruction) {
+		if x == i {
+			found = true
+		}
+	})
+	return found
+}
+
+// ruleWriterMethodSets: the ResponseWriter implementations of the module and
+// the response forwarder do not grow exported methods. net/http, ReverseProxy
+// and http.ResponseController type-assert optional interfaces (Flusher,
+// Hijacker, ReaderFrom, Unwrap, …): a new exported method changes how the
+// standard library drives the writer (a Flush that performs an empty write
+// makes Response.Write see an empty body; a ReadFrom bypasses Write).
+func ruleWriterMethodSets(c *Ctx, p *Prog, rule string) {
+	pn := pinnedTable()
+	var ts []*types.Named
+	ts = append(ts, ResponseWriterImpls(p)...)
+	for _, name := range []string{"responseForwarder", "streamedBody", "attemptReader", "bufferedReadSeeker"} {
+		for _, t := range p.NamedTypesIn("agent/utils") {
+			if objName(t.Obj()) == name {
+				ts = append(ts, t)
+			}
+		}
+	}
+	seen := map[*types.Named]bool{}
+	for _, t := range ts {
+		if seen[t] {
+			continue
+		}
+		seen[t] = true
+		rel := Rel(t.Obj().Pkg().Path())
+		pp := pn.Pkgs[rel]
+		if pp == nil {
+			continue
+		}
+		tfp, pinnedType := pp.Types[objName(t.Obj())]
+		pinnedM := map[string]bool{}
+		for _, m := range tfp.Methods {
+			pinnedM[m] = true
+		}
+		extra := ""
+		for i := 0; i < t.NumMethods(); i++ {
+			m := t.Method(i)
+			if !m.Exported() || pinnedM[objName(m)] {
+				continue
+			}
+			extra += " " + m.Name()
+		}
+		if !pinnedType {
+			// a new writer type: it must not offer optional interfaces that bypass its own Write/WriteHeader
+			extra = ""
+			for i := 0; i < t.NumMethods(); i++ {
+				switch n := t.Method(i).Name(); n {
+				case "Flush", "FlushError", "Hijack", "ReadFrom", "Unwrap", "Push", "CloseNotify", "WriteString":
+					extra += " " + n
+				}
+			}
+		}
+		c.Check(rule, "method-set:"+rel+"."+objName(t.Obj()), p, t.Obj().Pos(), extra == "", "no exported method beyond the pinned set: the standard library drives the writer only through Header/Write/WriteHeader (and the pinned extras)", rel+"."+objName(t.Obj())+" gained the exported method(s)"+extra+": net/http, ReverseProxy (FlushInterval) and ResponseController type-assert such methods and start calling them — e.g. a Flush implemented as an empty Write crosses the upload pipe as a zero-byte read, which Response.Write takes for an empty body: the client receives the headers and no body")
+	}
+}
+
+// ruleCounterOnlyIncrements: the shim session counter is modified by exactly
+// one atomic increment (by a positive constant); a decrement or reset hands
+// an ID out twice.
+func ruleCounterOnlyIncrements(c *Ctx, p *Prog, rule string) {
+	se := resolveShimEndpoints(c, p, rule)
+	if se == nil || se.Inner == nil {
+		return
+	}
+	var ctr ssa.Value
+	var sites []ssa.Instruction
+	bad := ""
+	for _, fn := range WithClosures(se.Create) {
+		EachInstr(fn, func(i ssa.Instruction) {
+			cc := CallOf(i)
+			if cc == nil {
+				return
+			}
+			n := CalleeName(cc)
+			switch n {
+			case "sync/atomic.AddUint64", "sync/atomic.AddInt64", "sync/atomic.AddUint32", "sync/atomic.AddInt32":
+				sites = append(sites, i)
+				ctr = cc.Args[0]
+				if d, ok := ConstInt(cc.Args[1]); !ok || d <= 0 {
+					bad = "the counter is modified by a non-positive or non-constant delta at " + p.Pos(i.Pos())
+				}
+			case "sync/atomic.StoreUint64", "sync/atomic.StoreInt64", "sync/atomic.SwapUint64", "sync/atomic.CompareAndSwapUint64", "sync/atomic.CompareAndSwapInt64", "(*sync/atomic.Uint64).Store", "(*sync/atomic.Uint64).CompareAndSwap", "(*sync/atomic.Uint64).Swap":
+				bad = "the counter is overwritten at " + p.Pos(i.Pos())
+			}
+		})
+	}
+	_ = ctr
+	c.Check(rule, "open:counter-only-increments", p, posOf(sites), len(sites) == 1 && bad == "", "the session counter is touched by exactly one atomic increment: numbers are never given back", fmt.Sprintf("the session counter has %d modification sites (%s): a number that is given back (decrement on a failed dial, reset) is handed out again while an earlier session still uses it — two clients share one shim session", len(sites), bad))
+}
+
+// ruleNoDeferredCancelOnReturnedResponse: a function that returns an
+// *http.Response (or hands its Body on) must not defer the cancel of the
+// context the request was sent with: the body is read by the caller after the
+// function returned, i.e. after the cancel.
+func ruleNoDeferredCancelOnReturnedResponse(c *Ctx, p *Prog, rule string, pkgs ...string) {
+	n := 0
+	for _, pk := range pkgs {
+		for _, fn := range p.FuncsIn(pk) {
+			res := fn.Signature.Results()
+			returnsResp := false
+			for k := 0; k < res.Len(); k++ {
+				if NamedType(res.At(k).Type()) == "net/http.Response" {
+					returnsResp = true
+				}
+			}
+			if !returnsResp || fn.Parent() != nil {
+				continue
+			}
+			n++
+			bad := ""
+			EachInstrRaw(fn, func(i ssa.Instruction) {
+				d, ok := i.(*ssa.Defer)
+				if !ok {
+					return
+				}
+				for _, r := range Roots(d.Call.Value) {
+					if ex, isE := r.(*ssa.Extract); isE && ex.Index == 1 {
+						if call, isC := ex.Tuple.(*ssa.Call); isC {
+							switch CalleeName(call.Common()) {
+							case "context.WithTimeout", "context.WithCancel", "context.WithDeadline", "context.WithTimeoutCause", "context.WithCancelCause":
+								bad = p.Pos(d.Pos())
+							}
+						}
+					}
+				}
+			})
+			c.Check(rule, "no-deferred-cancel:"+FuncName(fn), p, fn.Pos(), bad == "", "returns an *http.Response and defers no context cancel: the body stays readable for the caller", FuncName(fn)+" returns an *http.Response but defers the cancel of a request context ("+bad+"): the context is cancelled when the function returns, the transport closes the connection, and the caller reads only what was already buffered — large or slowly arriving request bodies reach the backend truncated")
+		}
+	}
+	if n == 0 {
+		c.Unk(rule, "no-deferred-cancel:functions", p, 0, "no function returning *http.Response found in "+strings.Join(pkgs, ","))
+	}
 }
